@@ -13,6 +13,7 @@ func countTransactions(w http.ResponseWriter, r *http.Request) {
 
 	rq, err := getResourceQuery[any](r)
 	if err != nil {
+		api.BadRequest(w, common.ErrValidation, err)
 		return
 	}
 	rq.Builder = buildGetTransactionsQuery(r)
